@@ -1,6 +1,6 @@
 (* C07 — property theorems.  Only statements, [exact lemma] and Print Assumptions. *)
 From Coq Require Import ZArith List Permutation Sorted.
-From FV Require Import Lib.RustInt C05.Model C05.Proofs C07.Proofs C07.Equiv C07.PromoteModel C07.Promote.
+From FV Require Import Lib.RustInt C05.Model C05.Proofs C07.Proofs C07.Equiv C07.PromoteModel C07.Promote C07.IdGen C07.IdCounter.
 Import ListNotations.
 Open Scope Z_scope.
 
@@ -106,6 +106,28 @@ Theorem c07_promotion_unordered_candidates_refuted :
     (forall l, Permutation l (perm l)) /\ NoDup (map lk_id l) /\ promote_perm perm sz l <> promote sz l.
 Proof. exact promote_hash_order_refuted. Qed.
 
+(* ---- round 4: the process-wide id counter never wraps (widths GENERATED from graph.rs by translators/c07_idcounter.py) ---- *)
+
+(* the counter / ObjectId field are wide enough that no feasible process (2^62 draws = 146 years at one per ns) wraps them *)
+Theorem c07_ids_never_wrap : 2 ^ id_bits > feasible_bound.
+Proof. exact ids_never_wrap. Qed.
+
+(* so over the whole feasible life of a process ids are a strictly monotone image of creation order … *)
+Theorem c07_ids_strictly_monotone : forall a b, 0 <= a -> a < b -> b < feasible_bound -> id_of_draw a < id_of_draw b.
+Proof. exact ids_strictly_monotone. Qed.
+
+(* … and the equivariance theorems above apply to EVERY compilation of the process: drawing at the positions [picks] of the
+   process-wide fetch_add sequence (any history before, any interleaving with other threads) gives the result of ids 0,1,2,… *)
+Theorem c07_process_history_independent : forall d picks, incr_nat picks ->
+  (forall i, In i picks -> Z.of_nat i < feasible_bound) ->
+  dump_table d (map (fun i => id_of_draw (Z.of_nat i)) picks) = dump_table d (canonical (length picks)).
+Proof. exact process_history_independent. Qed.
+
+(* the width is load-bearing: any w-bit counter hands two consecutive draws ids in the wrong order at its wrap *)
+Theorem c07_narrow_counter_not_monotone : forall w, 0 < w ->
+  exists a b, 0 <= a /\ a < b /\ b <= 2 ^ w /\ id_of_draw_bits w b < id_of_draw_bits w a.
+Proof. exact narrow_counter_not_monotone. Qed.
+
 (* NOT covered by these theorems: the space-assignment / isolation / duplication path (not modelled: the
    model answers Beyond there, identically for all streams), gvar / IVS / klippa: schedule experiment only. *)
 
@@ -125,3 +147,7 @@ Print Assumptions c07_promotion_candidate_order_independent.
 Print Assumptions c07_promotion_ties_broken_by_id.
 Print Assumptions c07_promotion_equivariant.
 Print Assumptions c07_promotion_unordered_candidates_refuted.
+Print Assumptions c07_ids_never_wrap.
+Print Assumptions c07_ids_strictly_monotone.
+Print Assumptions c07_process_history_independent.
+Print Assumptions c07_narrow_counter_not_monotone.
